@@ -30,9 +30,18 @@ GRAMMARS = {
         num = /[0-9]+/ ;
         other = 'x' ;
     ''',
+    # left recursion: the seed table must not survive from one parse to the next on the same object
+    'lrec': '''
+        @@grammar :: LRec
+        start = expr $ ;
+        expr = expr '+' num | expr '-' num | num ;
+        num = /[0-9]+/ ;
+        other = 'x' ;
+    ''',
 }
 INPUTS = {'kw': ['if abc;', 'abc = de;', 'if if;', 'x z', 'IF abc;', 'ifabc;'],
-          'sum': ['1+2+3', '7', '1+', 'x']}
+          'sum': ['1+2+3', '7', '1+', 'x'],
+          'lrec': ['1+2', '7', '1+2+3', '9-4-1', '1+', 'x']}
 
 
 class _Tag:
@@ -86,11 +95,13 @@ def _calls(gname):
     return out
 
 
-def run_parser_histories(prop, tier, seed):
+def run_parser_histories(prop, tier, seed, only=None):
     """all histories of length 2 (thorough: 3, sampled) of parse calls on ONE generated parser object"""
     import random
     failures, cases, distinct, samples = [], 0, set(), []
     for gname, gtext in GRAMMARS.items():
+        if only and gname not in only:
+            continue
         cls = _gen_parser_class(gtext)
         calls = _calls(gname)
         hists = list(itertools.product(range(len(calls)), repeat=2))
@@ -112,13 +123,14 @@ def run_parser_histories(prop, tier, seed):
                 samples.append({'grammar': gname, 'history': [calls[i][0] for i in h], 'result': got})
             if got != want:
                 hist = [calls[i][0] for i in h]
-                cls_slug = 'semantics' if 'semantics' in ''.join(hist) else 'settings'
+                joined = ''.join(hist[:-1])
+                cls_slug = 'semantics' if 'semantics' in joined else ('settings' if '=' in joined else 'parse')
                 failures.append({
                     'witness': {'grammar': gtext, 'history_on_one_generated_parser_object': hist},
                     'detail': f'last call gives {got} after the history, {want} on a fresh parser object',
                     'cls': f'generated-parser-result-depends-on-earlier-{cls_slug}'})
     return bitem(prop, 'reused-parser-histories', function='generated <Name>Parser.parse on one object (engine.bound / core._reset / find_semantic_action)',
-                 domain='2 grammars x 6-7 call variants (plain, start=, ignorecase=, nameguard=, tagging semantics, failing semantics) x inputs incl. failing ones; histories of length 2 (thorough: + 3000 sampled of length 3)',
+                 domain='3 grammars (keywords, named sums, left recursion) x 6-7 call variants (plain, start=, ignorecase=, nameguard=, tagging semantics, failing semantics) x inputs incl. failing ones; histories of length 2 (thorough: + 3000 sampled of length 3)',
                  bound='history length 2 (quick)', cases=cases, distinct_nontrivial=len(distinct),
                  rule='a case is a history; distinct non-trivial = histories whose calls are not all the same call', exhaustive=(tier != 'thorough'),
                  samples=samples, failures=failures)
